@@ -420,8 +420,9 @@ def run(ctx, res):
         h = S.find_fn(sh, EVAL, helpers[0])
         explicit = set()
         for mm in S.matches_in(h["body"]):
-            scr = ctx.src_text(EVAL, mm["e"]["sp"])
-            if "kind" in scr:
+            # the match whose scrutinee is the operator-kind parameter (found by the parameter's type, not its name)
+            kind_params = {p_["name"] for p_ in h["params"] if "BinaryOperatorKind" in p_["ty"]}
+            if S.idents_in(mm["e"]) & kind_params or (not kind_params and "kind" in ctx.src_text(EVAL, mm["e"]["sp"])):
                 for a in mm["arms"]:
                     explicit |= set(kinds_in_pat(a["pat"]))
         n_group = [g for g in groups if k in g[0]][0]
